@@ -428,6 +428,56 @@ theorem ModOK.sync_empty {cfg : Cfg} {w : Nat} {nr : Bool} {p : Pair} {g : Ghost
   have : g.pend = g.recs.length := by rw [he] at h1 ⊢; simpa using h1
   exact hm.j2 hn this
 
+/-- an effective full sync establishes the model invariant from ANY previous row -/
+theorem ModOK.of_fullSync (cfg : Cfg) (hg : cfg.sparseGeneric = false) (w : Nat) (nr : Bool) (p' : Pair) (recs : List (Nat × Rat))
+    (he' : ExpOK w p' recs) (hne : recs ≠ []) (g' : Ghost) (h1 : g'.recs = recs) (h2 : g'.snap = recs) (h3 : g'.pend = 0) :
+    ModOK cfg w nr (p'.fullSync cfg) g' := by
+  obtain ⟨a, b, c⟩ := full_sync_is_frequency cfg hg w p' recs he' hne
+  exact ModOK.of_synced (by rw [h1]; exact hne) (by rw [h1, h2]) h3 a (by rw [h1]; exact b) (by rw [h1]; exact c)
+
+/-- constructing the learned model establishes the invariant whatever the pair's model part held before -/
+theorem ModOK.ctor_any (cfg : Cfg) (hg : cfg.sparseGeneric = false) (w : Nat) (nr : Bool) (p : Pair) (g : Ghost) (b : Bool)
+    (he : ExpOK w p g.recs) : ModOK cfg w nr (p.step cfg (.ctor b)) (g.step (.ctor b)) := by
+  have full : ∀ (p' : Pair), ExpOK w p' g.recs → g.recs ≠ [] → ∀ g' : Ghost, g'.recs = g.recs → g'.snap = g.recs → g'.pend = 0 →
+      ∀ nr', ModOK cfg w nr' (p'.fullSync cfg) g' :=
+    fun p' he' hne g' h1 h2 h3 nr' => ModOK.of_fullSync cfg hg w nr' p' g.recs he' hne g' h1 h2 h3
+  simp only [Pair.step]
+  cases b with
+  | false =>
+    simp only [Ghost.step, Pair.ctor, Bool.false_eq_true, if_false]
+    refine ⟨by simp [length_unit, he.len], fun h => ?_, fun h => ?_, fun h => by simp at h, fun h => by simp at h,
+      fun _ _ => ⟨by simp [he.len], rfl⟩, fun _ => by simp, fun _ _ => rfl⟩
+    · left; exact List.length_eq_zero_iff.mp (by simpa using h)
+    · left; simp at h ⊢; omega
+  | true =>
+    simp only [Ghost.step, Pair.ctor, if_true]
+    by_cases e : g.recs = []
+    · have hn : p.cell.n = 0 := by rw [he.n, e]; rfl
+      have hq : ∀ r0 : List Rat, (({ p with row := r0, rew := 0 } : Pair).fullSync cfg) = { p with row := r0, rew := 0 } :=
+        fun r0 => fullSync_of_zero cfg _ hn
+      simp only [hq, hn, if_true]
+      refine ⟨?_, fun _ => Or.inl e, fun h => by simp at h, fun h => absurd (by simpa using e) h,
+        fun h => absurd (by simpa using e) h, fun hj _ => ?_, fun _ => by simp, fun _ _ => by simpa using e⟩
+      · rw [length_setQ]; split_ifs
+        · simp [length_junkRow, he.len]
+        · simp [length_zeros, he.len]
+      · simp only [hj, Bool.false_eq_true, if_false]
+        refine ⟨?_, by simp⟩
+        apply row_ext
+        · simp [length_setQ, length_zeros, length_unit, he.len]
+        · intro i hi
+          simp only [nthQ_setQ, nthQ_zeros, nthQ_unit, length_zeros, he.len]
+          rw [length_setQ, length_zeros, he.len] at hi
+          by_cases d : p.dfl = i
+          · subst d; simp [hi]
+          · have : ¬ i = p.dfl := fun x => d x.symm
+            simp [d, this]
+    · have hn : ¬ p.cell.n = 0 := by rw [he.n]; simpa using e
+      have hq : ∀ r0 : List Rat, (({ p with row := r0, rew := 0 } : Pair).fullSync cfg).cell.n = p.cell.n := fun r0 => by simp
+      simp only [hq, hn, if_false]
+      exact full { p with row := if cfg.ctorJunk = true then junkRow cfg p.idx p.cnt.length 0 else zeros p.cnt.length, rew := 0 }
+        (ExpOK.congr (p := p) rfl rfl he) e { g with snap := g.recs, pend := 0 } rfl rfl rfl _
+
 def isInc : LOp → Bool
   | .syncInc _ => true
   | _ => false
@@ -472,42 +522,8 @@ theorem ModOK.step (cfg : Cfg) (hg : cfg.sparseGeneric = false) (w : Nat) (nr : 
       simp only [this]
       exact full p he e { g with snap := g.recs, pend := 0 } rfl rfl rfl _
   | ctor b =>
-    simp only [Pair.step, isReset, Bool.not_false, Bool.and_true]
-    cases b with
-    | false =>
-      simp only [Ghost.step, Pair.ctor, Bool.false_eq_true, if_false]
-      refine ⟨by simp [length_unit, he.len], fun h => ?_, fun h => ?_, fun h => by simp at h, fun h => by simp at h,
-        fun _ _ => ⟨by simp [he.len], rfl⟩, fun _ => by simp, fun _ _ => rfl⟩
-      · left; exact List.length_eq_zero_iff.mp (by simpa using h)
-      · left; simp at h ⊢; omega
-    | true =>
-      simp only [Ghost.step, Pair.ctor, if_true]
-      by_cases e : g.recs = []
-      · have hn : p.cell.n = 0 := by rw [he.n, e]; rfl
-        have hq : ∀ r0 : List Rat, (({ p with row := r0, rew := 0 } : Pair).fullSync cfg) = { p with row := r0, rew := 0 } :=
-          fun r0 => fullSync_of_zero cfg _ hn
-        simp only [hq, hn, if_true]
-        refine ⟨?_, fun _ => Or.inl e, fun h => by simp at h, fun h => absurd (by simpa using e) h,
-          fun h => absurd (by simpa using e) h, fun hj _ => ?_, fun _ => by simp, fun _ _ => by simpa using e⟩
-        · rw [length_setQ]; split_ifs
-          · simp [length_junkRow, he.len]
-          · simp [length_zeros, he.len]
-        · simp only [hj, Bool.false_eq_true, if_false]
-          refine ⟨?_, by simp⟩
-          apply row_ext
-          · simp [length_setQ, length_zeros, length_unit, he.len]
-          · intro i hi
-            simp only [nthQ_setQ, nthQ_zeros, nthQ_unit, length_zeros, he.len]
-            rw [length_setQ, length_zeros, he.len] at hi
-            by_cases d : p.dfl = i
-            · subst d; simp [hi]
-            · have : ¬ i = p.dfl := fun x => d x.symm
-              simp [d, this]
-      · have hn : ¬ p.cell.n = 0 := by rw [he.n]; simpa using e
-        have hq : ∀ r0 : List Rat, (({ p with row := r0, rew := 0 } : Pair).fullSync cfg).cell.n = p.cell.n := fun r0 => by simp
-        simp only [hq, hn, if_false]
-        exact full { p with row := if cfg.ctorJunk = true then junkRow cfg p.idx p.cnt.length 0 else zeros p.cnt.length, rew := 0 }
-          (ExpOK.congr (p := p) rfl rfl he) e { g with snap := g.recs, pend := 0 } rfl rfl rfl _
+    simp only [isReset, Bool.not_false, Bool.and_true]
+    exact ModOK.ctor_any cfg hg w nr p g b he
   | syncInc s1 =>
     simp only [Pair.step, isReset, Bool.not_false, Bool.and_true]
     have hs1 : s1 < w := by simpa [opWF] using hwf
@@ -703,6 +719,95 @@ theorem model_mirrors_history (cfg : Cfg) (hg : cfg.sparseGeneric = false) (w df
   · rcases hm.k1 h0 with e | e
     · exact absurd e hne
     · exact e
+
+/-! ### recovery after a violated precondition -/
+
+/-- calls that resynchronise a pair whatever its row held: a full sync with data (`sync(s,a)`, the pair's turn in
+    `sync()`, or the periodic branch of `sync(s,a,s1)`), and constructing the model -/
+def recovers (cfg : Cfg) (p : Pair) : LOp → Bool
+  | .sync => p.cell.n != 0
+  | .syncInc _ => p.cell.n != 0 && p.cell.n % cfg.period == 0
+  | .ctor _ => true
+  | _ => false
+
+/-- **recovery_step**: a recovering call establishes the model invariant from an ARBITRARY model part
+    (no hypothesis on the row, the reward, or on how the precondition was treated before) -/
+theorem recovery_step (cfg : Cfg) (hg : cfg.sparseGeneric = false) (w : Nat) (nr : Bool) (p : Pair) (g : Ghost) (op : LOp)
+    (he : ExpOK w p g.recs) (hr : recovers cfg p op = true) :
+    ModOK cfg w nr (p.step cfg op) (g.step op) := by
+  cases op with
+  | ctor b => exact ModOK.ctor_any cfg hg w nr p g b he
+  | sync =>
+    have hn : p.cell.n ≠ 0 := by simpa [recovers] using hr
+    have e : g.recs ≠ [] := by intro h; apply hn; rw [he.n, h]; rfl
+    have hemp : g.recs.isEmpty = false := by simpa using e
+    simp only [Pair.step, Ghost.step, hemp]
+    exact ModOK.of_fullSync cfg hg w nr p g.recs he e { g with snap := g.recs, pend := 0 } rfl rfl rfl
+  | syncInc s1 =>
+    simp only [recovers, Bool.and_eq_true, bne_iff_ne, beq_iff_eq] at hr
+    have e : g.recs ≠ [] := by intro h; apply hr.1; rw [he.n, h]; rfl
+    have hemp : g.recs.isEmpty = false := by simpa using e
+    simp only [Pair.step, Ghost.step, hemp, incSync_eq_full cfg p s1 hr.2]
+    exact ModOK.of_fullSync cfg hg w nr p g.recs he e { g with snap := g.recs, pend := 0 } rfl rfl rfl
+  | record s1 r => simp [recovers] at hr
+  | reset => simp [recovers] at hr
+  | nop => simp [recovers] at hr
+
+theorem Pair.run_append (cfg : Cfg) (p : Pair) (h1 h2 : List LOp) : p.run cfg (h1 ++ h2) = (p.run cfg h1).run cfg h2 := by
+  simp [Pair.run, List.foldl_append]
+
+theorem Ghost.run_append (g : Ghost) (h1 h2 : List LOp) : g.run (h1 ++ h2) = (g.run h1).run h2 := by
+  simp [Ghost.run, List.foldl_append]
+
+/-- **recovery**: let `h1` be ANY local history (indices in or out of range, incremental syncs called with or
+    without their precondition, wrong `s1` …).  If the next call `op` is a recovering one and the rest `h2` of the history
+    is well formed and respects the precondition *from there on*, all conclusions of `model_mirrors_history` hold at
+    the end of `h1 ++ op :: h2` — the damage of a violated precondition does not outlive the next full sync. -/
+theorem recovery (cfg : Cfg) (hg : cfg.sparseGeneric = false) (w dfl idx : Nat) (h1 h2 : List LOp) (op : LOp)
+    (hr : recovers cfg ((Pair.init w dfl idx).run cfg h1) op = true)
+    (hwf : wfAll w h2 = true) (hpre : incPre ((Ghost.init.run h1).step op) h2 = true)
+    (hc : cfg.n1Clear = true ∨ (noReset h2 = true ∧ cfg.ctorJunk = false)) :
+    let p := (Pair.init w dfl idx).run cfg (h1 ++ op :: h2)
+    let g := Ghost.init.run (h1 ++ op :: h2)
+    (p.cell.n = g.recs.length ∧ p.cell.mean = meanOf g.recs ∧ p.cell.m2 = sqDevOf g.recs ∧
+      ∀ i, i < w → nthN p.cnt i = countS1 i g.recs) ∧
+    (g.snap ≠ [] → (∀ i, i < w → nthQ p.row i = freqOf g.snap i) ∧ RewOK cfg p.rew (meanOf g.snap)) ∧
+    (cfg.ctorJunk = false → g.snap = [] → p.row = unit w dfl ∧ p.rew = 0) ∧
+    (g.pend = 0 → g.recs ≠ [] → g.snap = g.recs) := by
+  intro p g
+  have he1 := ExpOK.run cfg w h1 (Pair.init w dfl idx) Ghost.init (by simpa [Ghost.init] using ExpOK.init w dfl idx)
+  have hm1 := recovery_step cfg hg w true _ _ op he1 hr
+  have he1' := ExpOK.step cfg w _ _ op he1
+  have hc' : cfg.n1Clear = true ∨ (true = true ∧ noReset h2 = true ∧ cfg.ctorJunk = false) := by
+    rcases hc with a | ⟨a, b⟩
+    · exact Or.inl a
+    · exact Or.inr ⟨rfl, a, b⟩
+  obtain ⟨he, hm⟩ := Inv.run cfg hg w h2 true _ _ he1' hm1 hwf hpre hc'
+  have hp : p = (((Pair.init w dfl idx).run cfg h1).step cfg op).run cfg h2 := by
+    simp only [p, Pair.run_append]; rfl
+  have hgg : g = ((Ghost.init.run h1).step op).run h2 := by
+    simp only [g, Ghost.run_append]; rfl
+  rw [hp, hgg]
+  refine ⟨he.spec, fun hs => ⟨hm.mRow hs, hm.mRew hs⟩, fun hj hs => ?_, fun h0 hne => ?_⟩
+  · have := hm.dflt hj hs
+    simpa [Pair.init] using this
+  · rcases hm.k1 h0 with e | e
+    · exact absurd e hne
+    · exact e
+
+/-- hypotheses of `recovery` are satisfiable by a history whose first part violates the precondition twice
+    (incremental sync after two records; incremental sync naming the wrong next state) -/
+example :
+    let cfg : Cfg := { period := 10000, n1Clear := true, ctorJunk := false, junk := fun _ _ => 0, rewTol := none }
+    let h1 : List LOp := [.record 1 1, .record 0 2, .syncInc 0, .record 1 3, .syncInc 0]
+    let h2 : List LOp := [.record 1 5, .syncInc 1, .reset, .record 0 1, .syncInc 0]
+    incPre Ghost.init h1 = false ∧ recovers cfg ((Pair.init 2 0 0).run cfg h1) .sync = true ∧
+    wfAll 2 h2 = true ∧ incPre ((Ghost.init.run h1).step .sync) h2 = true := by
+  intro cfg h1 h2
+  refine ⟨by decide, ?_, by decide, by decide⟩
+  have := (ExpOK.run cfg 2 h1 (Pair.init 2 0 0) Ghost.init (by simpa [Ghost.init] using ExpOK.init 2 0 0)).n
+  simp only [recovers, this]
+  decide
 
 /-- the same conclusion in the form the driver evaluates: every row entry equals `specRow` -/
 theorem model_row_eq_specRow (cfg : Cfg) (hg : cfg.sparseGeneric = false) (w dfl idx : Nat) (h : List LOp)
@@ -1045,6 +1150,85 @@ theorem thompson_rows_valid (g : List Rat) (hne : g ≠ []) (hp : ∀ x ∈ g, 0
 /-- below two visits the exposed reward of a Thompson model is the empirical mean -/
 theorem thompson_reward_mle (c : Cell) (t sd : Rat) (h : c.n < 2) : thompsonReward c t sd = c.mean := by
   simp [thompsonReward, h]
+
+theorem sumQ_nonneg (l : List Rat) (h : ∀ x ∈ l, 0 ≤ x) : 0 ≤ sumQ l := by
+  induction l with
+  | nil => simp [sumQ]
+  | cons x xs ih =>
+    simp only [sumQ]
+    have := h x (by simp)
+    have := ih (fun y hy => h y (by simp [hy]))
+    linarith
+
+/-- the sum of squared deviations of recorded data is never negative: the square root in the Thompson reward
+    rule always has a non-negative argument -/
+theorem sqDevOf_nonneg (recs : List (Nat × Rat)) : 0 ≤ sqDevOf recs := by
+  unfold sqDevOf
+  apply sumQ_nonneg
+  intro x hx
+  simp only [List.mem_map] at hx
+  obtain ⟨y, _, rfl⟩ := hx
+  exact mul_self_nonneg _
+
+/-- **thompson_post_documented**: on a pair holding the records `recs` with at least two of them, the reward
+    posterior that `ThompsonModel::sync` / `CooperativeThompsonModel::syncRow` draw from is the documented Student-t:
+    location = empirical mean, `visits − 1 ≥ 1` degrees of freedom, squared scale = `Σ(r−mean)² / (n(n−1))` =
+    (sample variance)/n; its divisor is non-zero and the squared scale is non-negative, so location, scale and
+    degrees of freedom are all finite and valid distribution parameters. -/
+theorem thompson_post_documented (w : Nat) (p : Pair) (recs : List (Nat × Rat)) (he : ExpOK w p recs)
+    (h2 : 2 ≤ recs.length) :
+    thompsonPost p.cell = some { loc := meanOf recs,
+                                 scale2 := sqDevOf recs / (((recs.length * (recs.length - 1) : Nat)) : Rat),
+                                 dof := recs.length - 1 } ∧
+    (0 : Rat) < ((recs.length * (recs.length - 1) : Nat) : Rat) ∧
+    0 ≤ sqDevOf recs / (((recs.length * (recs.length - 1) : Nat)) : Rat) ∧
+    1 ≤ recs.length - 1 ∧
+    sqDevOf recs / (((recs.length * (recs.length - 1) : Nat)) : Rat)
+      = sqDevOf recs / ((recs.length - 1 : Nat) : Rat) / (recs.length : Rat) := by
+  obtain ⟨hn, hm, hq, _⟩ := he.spec
+  have hpos : 0 < recs.length * (recs.length - 1) := Nat.mul_pos (by omega) (by omega)
+  have hposQ : (0 : Rat) < ((recs.length * (recs.length - 1) : Nat) : Rat) := by exact_mod_cast hpos
+  refine ⟨?_, hposQ, div_nonneg (sqDevOf_nonneg recs) (le_of_lt hposQ), by omega, ?_⟩
+  · unfold thompsonPost
+    have : ¬ recs.length < 2 := by omega
+    simp only [hn, hm, hq, this, if_false]
+  · have h1 : ((recs.length : Nat) : Rat) ≠ 0 := by
+      have : recs.length ≠ 0 := by omega
+      exact_mod_cast this
+    have h3 : ((recs.length - 1 : Nat) : Rat) ≠ 0 := by
+      have : recs.length - 1 ≠ 0 := by omega
+      exact_mod_cast this
+    rw [Nat.cast_mul]
+    field_simp
+
+/-- below two visits there is no posterior: the exposed reward is the empirical mean (0 on no data) -/
+theorem thompson_post_none (w : Nat) (p : Pair) (recs : List (Nat × Rat)) (he : ExpOK w p recs) (h2 : recs.length < 2)
+    (gs : List Rat) (t sd : Rat) :
+    thompsonPost p.cell = none ∧ (p.thompsonSync gs t sd).rew = meanOf recs := by
+  obtain ⟨hn, hm, _, _⟩ := he.spec
+  have : p.cell.n < 2 := by rw [hn]; exact h2
+  simp [thompsonPost, Pair.thompsonSync, thompsonReward, this, hm]
+
+/-- the Dirichlet parameters handed to the gamma sampler are all at least 1/2: valid shape parameters -/
+theorem dirichletParams_pos (cnt : List Nat) : ∀ x ∈ dirichletParams cnt, (1 : Rat) / 2 ≤ x := by
+  intro x hx
+  simp only [dirichletParams, List.mem_map] at hx
+  obtain ⟨c, _, rfl⟩ := hx
+  have : (0 : Rat) ≤ (c : Rat) := by positivity
+  linarith
+
+/-- **thompson_sync_valid**: whatever positive gamma draws and whatever Student-t draw the engine produced, a
+    Thompson sync leaves a probability row, and with two or more records the reward `loc + t·sd` where `sd² =` the
+    posterior's squared scale -/
+theorem thompson_sync_valid (w : Nat) (p : Pair) (recs : List (Nat × Rat)) (he : ExpOK w p recs)
+    (gs : List Rat) (hne : gs ≠ []) (hp : ∀ x ∈ gs, 0 < x) (t sd : Rat) :
+    (∀ y ∈ (p.thompsonSync gs t sd).row, 0 < y) ∧ sumQ (p.thompsonSync gs t sd).row = 1 ∧
+    (2 ≤ recs.length → (p.thompsonSync gs t sd).rew = meanOf recs + t * sd) := by
+  obtain ⟨a, b, _⟩ := thompson_rows_valid gs hne hp
+  refine ⟨a, b, fun h2 => ?_⟩
+  obtain ⟨hn, hm, _, _⟩ := he.spec
+  have : ¬ p.cell.n < 2 := by rw [hn]; omega
+  simp [Pair.thompsonSync, thompsonReward, this, hm]
 
 example : normalize [1/2, 3/2, 2] = [1/8, 3/8, 1/2] := by norm_num [normalize, sumQ]   -- test on literals
 
